@@ -110,6 +110,11 @@ def run(ctx):
     # >>> a_c05 (wave 4): inventory streams, see props/C05_inv.py and audit/C05.md
     C05_inv.run_inv(ctx)
     # <<<
+    # >>> w_buf (wave 5): index-level safety of buffer.rs -- contract-respecting op lists on the real BufferWindow in both
+    # build profiles (debug: every debug_assert! in front of the unsafe blocks is armed); see props/bufstore.py
+    from props import bufstore
+    bufstore.run(ctx, "C05", 2500, 30000, profiles=PROFILES, crash_oracle=True)
+    # <<< w_buf
 
 
 def search(ctx):
